@@ -567,16 +567,18 @@ NLW2_SOLReadResultCode SOLReader2<SOLHandler>::gsufread(FILE* f) {
           return ReportEarlyEof();
         s += strlen(s);
       }
-      if (!fgets(buf, sizeof(buf)-1, f))
-        return ReportEarlyEof();
-      if (!(L = strlen(buf)) || buf[--L] != '\n'
+      std::string last;     // the last line may be longer than buf
+      do {
+        if (!fgets(buf, sizeof(buf)-1, f))
+          return ReportEarlyEof();
+        last += buf;
+      } while (*buf && '\n' != last.back());
+      if (!(L = last.size()) || last[--L] != '\n'
           || L >= (size_t)(se - s))
-        return ReportBadLine(buf);
+        return ReportBadLine(last);
       if (L) {
-        if (buf[L-1] != '\r' || --L) {
-          buf[L] = 0;
-          memcpy(s, buf, L);
-        }
+        if (last[L-1] != '\r' || --L)
+          memcpy(s, last.data(), L);
       }
     }
     SuffixInfo si(SR.h.kind, SR.name, SR.table);
